@@ -1,5 +1,6 @@
 import TlsProofs.Negotiate
 import TlsProofs.Compat
+import TlsProofs.NoAbort
 /-
   C03 — both ends of a completed handshake agree on everything, within both policies.
 
@@ -10,26 +11,26 @@ import TlsProofs.Compat
 namespace Tls.Neg.C03
 open Tls.Neg Tls.Gen.Neg
 
-/-! ### 1. every negotiated parameter is in the offer and inside both policies
+/-! ### 1. every negotiated parameter is in the offer and inside both policies; otherwise an alert
 
-  FULL STATEMENT (what the property text asks):
+  FULL STATEMENT (what the property text asks), proved by the two theorems below together with
+  `version_inside_both_ranges`:
     negotiate cs ss cc sc = .ok p  →
       p.version inside [minVersion, maxVersion] of both sides ∧
       p.suite ∈ offer ∧ cs.allowsSuite p.suite ∧ ss.allowsSuite p.suite ∧
       (group: enabled on both sides and offered) ∧
       (DH prime / SRP modulus within [minKeySize, maxKeySize] of the client) ∧
       (signature scheme offered by the verifier, produced from the signer's own lists) ∧
-      (peer key size / curve / key type within the verifier's settings, both directions), and
-    otherwise  ∃ side d, negotiate cs ss cc sc = .alert side d.
-  Every conjunct about the parameters is proved (`selected_in_offer_and_policy_partial` together with
-  `version_inside_both_ranges`); three of them became provable only after the repairs made to the tree
-  while this check was written (server version range, DH prime against the client's key sizes, client key
-  in TLS 1.3) — on the parents of those commits the corresponding `failIf` is absent from the mirrored
-  code and the proof does not close.
-  What does NOT hold is the last clause: some failures are exceptions that escape without an alert
-  (`failure_without_alert`); hence `_partial`.
+      (peer key size / curve / key type within the verifier's settings, both directions)
+                                                        (`selected_in_offer_and_policy`), and
+    otherwise  ∃ side d, negotiate cs ss cc sc = .alert side d        (`otherwise_an_alert`).
+  Several conjuncts, and the second clause as a whole, became provable only after repairs made to the
+  tree while this check was written (server version range, DH prime against the client's key sizes, client
+  key in TLS 1.3; six places where a local credential unusable for what was negotiated made an exception
+  escape without an alert): on the parents of those commits the mirrored code lacks the guard and the
+  proof does not close.
 -/
-theorem selected_in_offer_and_policy_partial (cs ss : Settings) (cc : ClientCfg) (sc : ServerCfg) (p : Params)
+theorem selected_in_offer_and_policy (cs ss : Settings) (cc : ClientCfg) (sc : ServerCfg) (p : Params)
     (h : negotiate cs ss cc sc = .ok p) :
     let o := clientOffer cs cc
     -- version: inside the client's policy, named by the client, inside the server's range
@@ -100,7 +101,7 @@ theorem selected_in_offer_and_policy_partial (cs ss : Settings) (cc : ClientCfg)
     rw [edh]
     exact hs3 hsrp hndh hnec
   · intro hne algs halgs
-    exact (pickSig_ok (hssig hne)).1 algs halgs
+    exact (pickSig_ok (hssig hne)).1 algs halgs hne
   · intro hv hne c hc
     exact (clientCheckServerCert_ok hscert c hc).2.1 hv hne
   · intro hv c hc
@@ -194,23 +195,34 @@ example :
       = .alert .server "handshake_failure" := by
   constructor <;> decide +kernel
 
-/-- not every failure is an alert: a server holding an Ed25519 key that ends up at TLS 1.1 calls
-    `privateKey.sign(hashBytes)` in `signServerKeyExchange`, which raises TypeError; nothing is sent -/
-theorem failure_without_alert :
-    negotiate { dflt with maxVersion := 2, versions := [3, 2, 1] } dflt certClient
-        (certServer { certAlg := "Ed25519", keyBits := 253, curve := "" })
-      = .abort .server "TypeError" := by
-  decide +kernel
-
-/-- the outcome is a completed handshake, an alert, or an escaped exception; under TLS ≤ 1.2 … the
-    abort cases are listed in the model (`Outcome.abort`) -/
-theorem outcome_cases (cs ss : Settings) (cc : ClientCfg) (sc : ServerCfg) :
-    (∃ p, negotiate cs ss cc sc = .ok p) ∨ (∃ s d, negotiate cs ss cc sc = .alert s d) ∨
-    (∃ s d, negotiate cs ss cc sc = .abort s d) := by
-  cases negotiate cs ss cc sc with
+/-- "… otherwise the handshake fails with an alert": for a server that was given credentials (the
+    handshake function refuses to start without: ValueError before any message) the outcome is a
+    completed handshake or an alert raised by a named side; no exception escapes -/
+theorem otherwise_an_alert (cs ss : Settings) (cc : ClientCfg) (sc : ServerCfg)
+    (hcred : serverHasCredentials ss sc = true) :
+    (∃ p, negotiate cs ss cc sc = .ok p) ∨ (∃ side d, negotiate cs ss cc sc = .alert side d) := by
+  have h := negotiate_noAbort cs ss cc sc hcred
+  cases hn : negotiate cs ss cc sc with
   | ok p => exact Or.inl ⟨p, rfl⟩
-  | alert s d => exact Or.inr (Or.inl ⟨s, d, rfl⟩)
-  | abort s d => exact Or.inr (Or.inr ⟨s, d, rfl⟩)
+  | alert s d => exact Or.inr ⟨s, d, rfl⟩
+  | abort s d => exact absurd hn (h s d)
+
+-- the six former escapes now end in alerts (each was `Outcome.abort` in the model of the parent trees):
+-- Ed25519 server key at TLS 1.1; Ed25519 client certificate at TLS 1.1; TLS 1.2 client certificate with
+-- every usable hash disabled; anonymous DH without a common FFDHE group
+example :
+    negotiate { dflt with maxVersion := 2, versions := [3, 2, 1] } dflt certClient
+        (certServer { certAlg := "Ed25519", keyBits := 253, curve := "" }) = .alert .server "insufficient_security" ∧
+    negotiate { dflt with maxVersion := 2, versions := [3, 2, 1] } dflt
+        { certClient with cred := some { certAlg := "Ed25519", keyBits := 253, curve := "" } }
+        { certServer rsaCred with reqCert := true } = .alert .client "handshake_failure" ∧
+    negotiate { dflt with maxVersion := 3, versions := [3, 2, 1], rsaSigHashes := [] } dflt
+        { certClient with cred := some rsa1024Cred } { certServer ecdsaCred with reqCert := true }
+      = .alert .client "handshake_failure" ∧
+    negotiate { dflt with maxVersion := 3, versions := [3, 2, 1], keyExchangeNames := ["dh_anon"], dhGroups := ["ffdhe2048"] }
+              { dflt with maxVersion := 3, versions := [3, 2, 1], keyExchangeNames := ["dh_anon"], dhGroups := ["ffdhe3072"] }
+              anonClient anonServer = .alert .server "internal_error" := by
+  refine ⟨?_, ?_, ?_, ?_⟩ <;> decide +kernel
 
 /-! ### 2. both endpoints' views are the same function of the same transcript
 
@@ -505,8 +517,8 @@ theorem server_versions_order_decides :
       server's key; and EVERY one of them can be carried through (`suiteWorks`: a common curve for ECDHE,
       acceptable primes for DHE, a common TLS 1.3 group directly or through HelloRetryRequest, a key able
       to sign the legacy ServerKeyExchange below TLS 1.2) — "the server is free to pick any of them";
-    * `sigShared`: a scheme the server can produce with its key that the client offered, and every such
-      scheme is accepted by the client for this chain;
+    * `sigShared` (TLS ≥ 1.2): a scheme the server can produce with its key that the client offered, and
+      every such scheme is accepted by the client for this chain;
     * `certAccepted`, `serverCurveListed`: the server's key inside the client's limits / curves;
     * `extensionsOk`: required EMS satisfiable, a common ALPN protocol when both have lists (TLS ≤ 1.2).
   Hypotheses of the theorem: `wf` (facts `validate()` establishes + default order of `versions`),
@@ -518,8 +530,9 @@ theorem server_versions_order_decides :
   the server takes its first preference among the common suites and does not look for one that works
   (`some_working_suite_is_not_enough`).  Further regions the premise has to exclude, each with a
   counterexample below: no fallback to a lower common version (`no_version_fallback`); the TLS 1.2
-  signature lists are applied when TLS 1.0/1.1 is negotiated (`tls11_applies_signature_lists`) and to RSA
-  key transport, which signs nothing (`rsa_key_transport_needs_signature_scheme`).  In the other
+  signature lists are applied to RSA key transport, which signs nothing
+  (`rsa_key_transport_needs_signature_scheme`; below TLS 1.2 they are no longer applied:
+  `tls11_ignores_signature_lists`).  In the other
   direction TLS 1.3 completes over a group RFC 8446 forbids (`tls13_completes_over_secp256k1`).
 -/
 theorem compatible_completes (cs ss : Settings) (cc : ClientCfg) (sc : ServerCfg)
@@ -552,7 +565,7 @@ theorem completes_implies_common_version (cs ss : Settings) (cc : ClientCfg) (sc
   obtain ⟨c1, c2, c3, c4, c5, c6, _⟩ := wf_spec hwc
   obtain ⟨s1, s2, s3, s4, s5, s6, _⟩ := wf_spec hws
   obtain ⟨r1, r2, r3, r4⟩ := version_inside_both_ranges cs ss cc sc p c3 s1 s2 h
-  have hsel := selected_in_offer_and_policy_partial cs ss cc sc p h
+  have hsel := selected_in_offer_and_policy cs ss cc sc p h
   simp only at hsel
   obtain ⟨_, _, hext, _⟩ := hsel
   have hcom : versionCommon cs ss p.version = true := by
@@ -597,15 +610,15 @@ theorem no_version_fallback :
               certClient (certServer rsaCred)) (fun p => p.version == 3) = true := by
   constructor <;> decide +kernel
 
-/-- the TLS 1.2 signature lists are applied although TLS 1.1 is negotiated (where the ServerKeyExchange
-    signature is fixed: MD5+SHA1 with RSA) -/
-theorem tls11_applies_signature_lists :
-    negotiate { dflt with rsaSigHashes := ["sha256"] }
-              { dflt with maxVersion := 2, versions := [3, 2, 1], rsaSigHashes := ["sha384"] }
-              certClient (certServer rsaCred) = .alert .server "handshake_failure" ∧
+/-- regression (repaired by 2910674): the TLS 1.2 signature lists are NOT applied when TLS 1.1 is
+    negotiated (the ServerKeyExchange signature is fixed there): disjoint hash lists no longer stop it -/
+theorem tls11_ignores_signature_lists :
     okWith (negotiate { dflt with rsaSigHashes := ["sha256"] }
-              { dflt with maxVersion := 2, versions := [3, 2, 1], rsaSigHashes := ["sha256"] }
-              certClient (certServer rsaCred)) (fun p => p.version == 2 && p.sigScheme == 0) = true := by
+              { dflt with maxVersion := 2, versions := [3, 2, 1], rsaSigHashes := ["sha384"] }
+              certClient (certServer rsaCred)) (fun p => p.version == 2 && p.sigScheme == 0) = true ∧
+    compatible { dflt with rsaSigHashes := ["sha256"] }
+               { dflt with maxVersion := 2, versions := [3, 2, 1], rsaSigHashes := ["sha384"] }
+               certClient (certServer rsaCred) = true := by
   constructor <;> decide +kernel
 
 /-- RSA key transport signs nothing, yet disjoint signature lists stop it -/
